@@ -1443,7 +1443,9 @@ def fam_forth(rng):
     def check(r):
         if r.status != "OK":
             return ("value", "%s: %s" % (what, r))
-        gerr, gstack, gvars, gouts, gpos = r.value
+        gerr, gstack, gvars, gouts, gpos, untouched = r.value
+        if not untouched:
+            return ("purity", "%s: the bytes of the input buffer were modified by the run" % what)
         if gerr != exp_err:
             return ("value", "%s: error status %d, documented semantics give %d (%s)" % (what, gerr, exp_err, err))
         if gvars != m.variables:
